@@ -67,7 +67,7 @@ def run_rp(ctx, plans, per_plan, large=()):
             shared = k % 2 == 0
             kwargs = pt.kw_variant(rng, k) if shared else [pt.kw_variant(rng, k + 7 * i) for i in range(T)]
             via_group = shared and k % 4 == 2
-            rs = k % 5 != 3
+            rs = k % 3 != 1          # without sample columns also for n_jobs = 1 (k = 7, 22, ...) and for more workers than rows
             n_jobs = [W, W, 1, T + 2, -1][k % 5] if W >= T or k % 5 < 2 else W
             progress = [None, 'tqdm'][(k // 2) % 2]
             case, realised = pt.run_2d(sigs, 64, (8, 12), kwargs, n_jobs, progress, delays, logdir, via_group=via_group, return_samples=rs)
@@ -87,14 +87,15 @@ def run_rp(ctx, plans, per_plan, large=()):
         shared = k % 3 == 2
         kwargs = pt.kw_variant(rng, k) if shared else [pt.kw_variant(rng, k + 5 * i) for i in range(T)]
         delays = [float(rng.integers(0, 3)) * 0.01 for _ in range(T)]
-        case, realised = pt.run_2d(sigs, 64, (8, 12), kwargs, W, None, delays, logdir, via_group=False, return_samples=True)
-        case['ref'] = pt.reference_2d(sigs, 64, (8, 12), kwargs)
+        rs_l = (W > 1) if T < 18 else (W == 1)          # with and without sample columns, for a single worker and for several
+        case, realised = pt.run_2d(sigs, 64, (8, 12), kwargs, W, None, delays, logdir, via_group=False, return_samples=rs_l)
+        case['ref'] = pt.reference_2d(sigs, 64, (8, 12), kwargs, return_samples=rs_l)
         case['pid'] = 'C11'
         case['check_logs'] = case['check_schedule']        # placement + the necessary condition on the logs; no schedule search
         case['check_schedule'] = False
         cases.append(case)
         metas.append({'T': T, 'array': pt.ARRAY_VARIANTS[k % 6], 'n_jobs': W, 'tlc_order': [], 'realised_completion_order': realised, 'options': 'shared' if shared else 'per-row list',
-                      'progress': None, 'api': 'compute_features_2d', 'return_samples': True, 'worker_processes_used': len(case['logs'])})
+                      'progress': None, 'api': 'compute_features_2d', 'return_samples': rs_l, 'worker_processes_used': len(case['logs'])})
         k += 1
     judge(ctx, cases, metas, 'C11')
     return cases, metas
